@@ -31,6 +31,8 @@ func init() {
 		{"tls.SerializedSCT.max", tlsLimit(x, "SerializedSCT", "Val", "maxlen", "sctItemMax")},
 		{"tls.SCTList.min", tlsLimit(x, "SignedCertificateTimestampList", "SCTList", "minlen", "sctListMin")},
 		{"tls.SCTList.max", tlsLimit(x, "SignedCertificateTimestampList", "SCTList", "maxlen", "sctListMax")},
+		{"asn1.base128.padding", ifPresent("asn1/asn1.go", "parseBase128Int", []string{"shifted == 0", "b == 0x80"}, "base128RejectsPadding",
+			"`parseBase128Int` refuses a group whose first byte is the padding byte 0x80 (non-minimal arc / tag number)")},
 		{"wiring.RemoveSCTList", soleReturn(x, "RemoveSCTList", "removeSCTListReturns")},
 		{"wiring.RemoveCTPoison", soleReturn(x, "RemoveCTPoison", "removeCTPoisonReturns")},
 		{"wiring.BuildPrecertTBS.first", firstAssign(x, "BuildPrecertTBS", "buildPrecertTBSFirst")},
@@ -206,5 +208,34 @@ func callsOf(rel, fn, prefix, leanName string) func() string {
 			return true
 		})
 		return fmt.Sprintf("/-- generated from %s: calls to `%s…` in `func %s` -/\ndef %s : List String := [%s]\n", rel, prefix, fn, leanName, strings.Join(rows, ", "))
+	}
+}
+
+// ifPresent: true iff fn contains an `if` whose condition mentions every marker and whose body sets err / returns.
+func ifPresent(rel, fn string, markers []string, leanName, doc string) func() string {
+	return func() string {
+		fd := mustFunc(rel, fn)
+		ss := findStmts(fd, func(s ast.Stmt) bool {
+			i, ok := s.(*ast.IfStmt)
+			if !ok {
+				return false
+			}
+			c := src(i.Cond)
+			for _, m := range markers {
+				if !strings.Contains(c, m) {
+					return false
+				}
+			}
+			b := src(i.Body)
+			return strings.Contains(b, "err =") || strings.Contains(b, "return")
+		})
+		if len(ss) > 1 {
+			panic(bail{fmt.Sprintf("%s: more than one `if` mentioning %v in %s", rel, markers, fn)})
+		}
+		v := "false"
+		if len(ss) == 1 {
+			v = "true"
+		}
+		return fmt.Sprintf("/-- generated from %s func %s: %s -/\ndef %s : Bool := %s\n", rel, fn, doc, leanName, v)
 	}
 }
